@@ -39,6 +39,9 @@ def tainted_vars(R, f):
                 src, tgts = st.iter, [st.target]
             elif isinstance(st, ast.comprehension):
                 src, tgts = st.iter, [st.target]
+            if isinstance(st, ast.Expr) and isinstance(st.value, ast.Call) and isinstance(st.value.func, ast.Attribute) \
+                    and st.value.func.attr in ("append", "extend") and isinstance(st.value.func.value, ast.Name) and st.value.args:
+                src, tgts = st.value.args[0], [st.value.func.value]  # collected item by item
             if src is None:
                 continue
             if any(isinstance(n, ast.Name) and n.id in t for n in ast.walk(src)):
@@ -278,7 +281,8 @@ def decoder_rules(ctx, R, skip_d3=False):
             t_ = n.test
             none_test = isinstance(t_, ast.Compare) and len(t_.ops) == 1 and isinstance(t_.ops[0], (ast.Is, ast.IsNot)) \
                 and isinstance(t_.comparators[0], ast.Constant) and t_.comparators[0].value is None and isinstance(t_.left, ast.Name)
-            if not none_test:  # `x is None` tells a reply without payload from one with: it does not look at the script
+            type_test = isinstance(t_, ast.Call) and isinstance(t_.func, ast.Name) and t_.func.id == "isinstance"
+            if not none_test and not type_test:  # `x is None` / isinstance(x, bytes) do not look at what the script says
                 probs.append(("branch", n))
         if isinstance(n, (ast.ListComp, ast.GeneratorExp)) and any(g.ifs for g in n.generators):
             probs.append(("filter", n))
@@ -295,8 +299,9 @@ def decoder_rules(ctx, R, skip_d3=False):
             if isinstance(recv, ast.Name):
                 ds = [a.value for a in walk_no_nested(get.node) if isinstance(a, ast.Assign) and any(
                     isinstance(t, ast.Name) and t.id == recv.id for t in a.targets)]
-                if ds and all(isinstance(d, ast.Call) and call_name(d) in ("decode", "str") for d in ds):
-                    recv = ds[0]
+                dec = [d for d in ds if isinstance(d, ast.Call) and call_name(d) in ("decode", "str")]
+                if dec:
+                    recv = dec[0]  # on the path through that definition the value split is decoded text
             if isinstance(recv, ast.Call) and call_name(recv) in ("decode", "str") or any(
                     isinstance(x, ast.Call) and call_name(x) == "decode" for x in ast.walk(recv)):
                 probs.append(("text-splitlines", c))
